@@ -1128,6 +1128,62 @@ func genDecHist(emit func(string), tier string, rng *Rng) {
 		emit(dapiLine("dechist", opt, fac, strings.Join(ops, ","), streams))
 		count(fmt.Sprintf("S-kind-%d", kind))
 	}
+	// leak probes: a predecessor P whose file_id comes LAST (so that PeekFileId decodes definitions, a field description,
+	// a developer data id, a timestamp and an accumulated field before it stops), then a sequence S on which any state
+	// surviving from P shows: a data record without definition, a developer field without description, an accumulated
+	// component, a compressed timestamp
+	u32 := func(v uint32) []byte { return []byte{byte(v), byte(v >> 8), byte(v >> 16), byte(v >> 24)} }
+	for i := 0; i < 150*scale; i++ {
+		ts := 0x30000000 + uint32(rng.Intn(100000))
+		var p []byte
+		p = append(p, dapiDefRec(0, 0, 206, []dapiFD{{0, 1, 0x02}, {1, 1, 0x02}, {2, 1, 0x02}}, nil)...)
+		p = append(p, 0, 0, 5, []byte{0x84, 0x02, 0x86, 0x07}[rng.Intn(4)])
+		p = append(p, dapiDefRec(1, 0, 207, []dapiFD{{3, 1, 0x02}}, nil)...)
+		p = append(p, 1, 0)
+		p = append(p, dapiDefRec(2, 0, 20, []dapiFD{{253, 4, 0x86}, {18, 1, 0x02}, {2, 2, 0x84}}, nil)...)
+		p = append(p, 2)
+		p = append(p, u32(ts)...)
+		p = append(p, byte(rng.Intn(250)), byte(rng.Intn(256)), byte(rng.Intn(200)))
+		p = append(p, dapiDefRec(3, 0, 0, []dapiFD{{0, 1, 0x00}, {1, 2, 0x84}}, nil)...)
+		p = append(p, 3, 4, 1, 0)
+		P := dapiSeq(14, true, p)
+		var sr []byte
+		kind := rng.Intn(5)
+		switch kind {
+		case 0: // data record of P's local definition 2, no definition in S
+			sr = append(sr, 2)
+			sr = append(sr, u32(ts+5)...)
+			sr = append(sr, byte(rng.Intn(250)), 1, 2)
+		case 1: // developer field whose description only P has
+			sr = append(sr, dapiDefRec(4, 0, 20, []dapiFD{{3, 1, 0x02}}, []dapiFD{{5, 2, 0}})...)
+			sr = append(sr, 4, 60, byte(rng.Intn(256)), byte(rng.Intn(256)))
+		case 2: // accumulated component: cycles -> total_cycles
+			sr = append(sr, dapiDefRec(2, 0, 20, []dapiFD{{18, 1, 0x02}}, nil)...)
+			sr = append(sr, 2, byte(rng.Intn(250)), 2, byte(rng.Intn(250)))
+		case 3: // compressed timestamp before any timestamp of S
+			sr = append(sr, dapiDefRec(1, 0, 20, []dapiFD{{3, 1, 0x02}}, nil)...)
+			sr = append(sr, 0x80|1<<5|byte(rng.Intn(32)), 70)
+		default: // accumulated `Collect` value of a decoded field feeding a later accumulation (altitude is collected)
+			sr = append(sr, dapiDefRec(2, 0, 20, []dapiFD{{18, 1, 0x02}, {2, 2, 0x84}}, nil)...)
+			sr = append(sr, 2, byte(rng.Intn(250)), 7, 0)
+		}
+		if rng.Intn(3) == 0 { // S itself starts with a file_id (peeks on S stop at once)
+			fid := append(dapiDefRec(3, 0, 0, []dapiFD{{0, 1, 0x00}}, nil), 3, 4)
+			sr = append(fid, sr...)
+		}
+		S := dapiSeq(14, true, sr)
+		opt := fmt.Sprintf("chk%d,exp1,bo0,bc0,ml%d,dl%d,lw0,rbs0", rng.Intn(2), rng.Intn(2), rng.Intn(2))
+		fac := dapiFacString(dapiPool)
+		chain := append(append([]byte(nil), P...), S...)
+		for _, h := range []string{"pki,dis,dec", "pki,dec,dec", "dec,dec", "dis,dec", "pki,ci,dis,dec", "pki,ci,pki,dis,dec", "nxt,pki,dis,nxt,dec", "pkh,pki,dis,pki,dec"} {
+			emit(dapiLine("dechist", opt, fac, h, [][]byte{chain}))
+			count(fmt.Sprintf("leak-probe-%d", kind))
+		}
+		for _, h := range []string{"pki,rst1,dec", "pki,dis,rst1,dec", "pki,decc,rst1,dec", "dec,rst1,dec", "pki,ci,rst1,dec"} {
+			emit(dapiLine("dechist", opt, fac, h, [][]byte{P, S}))
+			count(fmt.Sprintf("leak-probe-%d", kind))
+		}
+	}
 	// failing integrity check in the middle of a chain, then decoding from the start again
 	for i := 0; i < 300*scale; i++ {
 		opt, fac := dapiOptString(rng), dapiFacString(dapiRandFactory(rng))
